@@ -425,3 +425,6 @@ func init() {
 	reg.Register("lexers", "file", File)
 	reg.Register("lexers", "nest", Nest)
 }
+
+// HarvestLiterals exposes the string literals of the repository's test files per package (css, html, xml, json, js).
+func HarvestLiterals(repo string) map[string][]string { return harvest(repo) }
